@@ -262,7 +262,7 @@ namespace Givaro {
         if (&W == &U) { Rep Ut; assign(Ut, U); return powmod(W, P, pwr, Ut); } // W may be the same object as U
         Rep puiss, tmp;
         mod(puiss, P, U);
-        assign(W,one);
+        mod(W, one, U); // P^0 mod U: one, or zero when U is a non-zero constant
 
         Integer n(pwr);
         if (n<0) {
